@@ -63,6 +63,9 @@ pub enum Case {
         #[serde(default = "one")]
         variant: u8,
     },
+    /// such an archive with two layers (kind, variant, annotated): equal bytes under different media
+    /// types, the same message twice under different annotations, every order
+    ForeignArchive2 { a: (u8, u8, bool), b: (u8, u8, bool) },
     /// a sample set in the field layout written by earlier releases (see C15), read back sample by sample
     LegacySampleSet { samples: Vec<(f64, u8)>, sense: i32 },
 }
@@ -788,6 +791,12 @@ pub fn check_case(l: &mut Local, case: &Case) {
             l.outcome(&("foreign", kind, annotated, variant));
             super::c20::check_foreign_layers(l, case, &[super::c20::LayerRep { kind: *kind, variant: *variant, annotated: *annotated }], "foreign-archive");
         }
+        Case::ForeignArchive2 { a, b } => {
+            l.evaluations += 1;
+            l.outcome(&("foreign2", a, b));
+            let ly = |x: &(u8, u8, bool)| super::c20::LayerRep { kind: x.0, variant: x.1, annotated: x.2 };
+            super::c20::check_foreign_layers(l, case, &[ly(a), ly(b)], "foreign-archive");
+        }
         Case::LegacySampleSet { samples, sense } => {
             l.outcome(&("legacy-sample-set", samples.len(), sense));
             let mut inner = Local::new();
@@ -945,6 +954,19 @@ pub fn run(ctx: &Ctx) -> Finish {
                 for variant in [0u8, 1] {
                     l.states += 1;
                     check_case(l, &Case::ForeignArchive { kind, annotated, variant });
+                }
+            }
+        }
+        // two-layer archives: every ordered pair of (kind, variant), the second layer annotated
+        for ka in 0u8..4 {
+            for va in [0u8, 1] {
+                for kb in 0u8..4 {
+                    for vb in [0u8, 1] {
+                        for (aa, ab) in [(false, true), (true, false)] {
+                            l.states += 1;
+                            check_case(l, &Case::ForeignArchive2 { a: (ka, va, aa), b: (kb, vb, ab) });
+                        }
+                    }
                 }
             }
         }
